@@ -71,6 +71,7 @@ def strategy(tier):
             # some coefficients of sum c_i/x_i^q exactly zero, or zero up to round-off with the wrong sign (0.3-0.1-0.2 =
             # -2.8e-17): gradient entries that are 0 or +1e-17-sized, which minimize_oc clips to zero
             "czero": draw(st.sampled_from(["none", "none", "none", "zero", "roundoff"])),
+            "pre_sens": draw(st.sampled_from([False, False, True])),   # sensitivities left in the network beforehand
             "move": draw(st.sampled_from([0.2, 0.1, 0.3, 0.5])) if conv else
             draw(st.one_of(st.sampled_from([0.2, 0.1, 0.05, 0.5, 0.01]), st.floats(0.01, 0.5))),
             "vol": draw(st.floats(0.02, 0.98)) if conv else
@@ -304,6 +305,13 @@ def run_oc(case, prob, log):
         obj = net.append(pym.Scaling(sc, scaling=prob["scale"] * 10.0))
     log["variables"] = variables
     with contextlib.redirect_stdout(io.StringIO()):
+        if case.get("pre_sens"):
+            # evaluated and back-propagated once by the user before the optimisation (sensitivities still in the network)
+            net.response()
+            obj.sensitivity = 1.0
+            net.sensitivity()
+            log["x"].clear()
+            log["g"].clear()
         pym.minimize_oc(net, variables if len(variables) > 1 or case["payload_seed"] % 2 else variables[0], obj,
                         **prob["kw"])
     log["final"] = [(np.shape(s.state), np.array(s.state, dtype=float).copy()) for s in variables]
@@ -393,6 +401,8 @@ def check_case(case, _debug=None):
               f"l1l2tol:{case['l1l2tol']}", f"gexp:{case['gexp']}"]
     labels.append("bounds:" + case.get("bound_type", "float"))
     labels.append("variables:" + var_form(case, prob))
+    if case.get("pre_sens"):
+        labels.append("sensitivities_left_before_start")
     if "per_var" in (case["xmin_form"], case["xmax_form"]):
         labels.append("per_var_bounds")
     if any(kd != "arr" for kd in prob["kinds"]):
